@@ -14,6 +14,7 @@ import Gts.Bridge.SeqReverse
 import Gts.Bridge.SeqComplement
 import Gts.Lemmas.ReverseInvol
 import Gts.Lemmas.MarksDelAll
+import Gts.Lemmas.ReverseStable
 namespace Gts.C05
 open Gts Loc
 
@@ -249,6 +250,40 @@ example :
     (canonP c = true ∧ reverseStable c 20 = true ∧ coordsWithin c 20 = true) := by
   decide
 
+/-- **the guard in terms of the location itself**: a canonical, well-formed location that reads no
+residue twice and contains no between-site, and in whose reversal K2 does not fire, meets
+`reverseStable` — the three refuted statements above each drop exactly one of these conditions
+(K2: `reverse_involutive_full_refuted`; a between-site, K1: `reverse_involutive_k2_refuted`; a
+residue read twice: `reverse_involutive_absorb_refuted`).  Proof: `Join` leaves parts alone iff no
+adjacent pair meets a rule of `Push`; the mirror image of such a pair meets one only through a
+between-site, a point on the last base of the range in front of it, or K2
+(`Gts/Lemmas/ReverseStable.lean`). -/
+theorem reverse_stable_of_nodup (l : Loc) (L : Int) (hc : canonP l = true) (hw : wf l = true)
+    (hnd : (den l).Nodup) (hnb : (leaves l).all (fun u => !isBetween u) = true)
+    (hk2 : reverseAbs l L = false) : reverseStable l L = true :=
+  reverseStable_of_guards l L hc hw hnd (by rw [allLeaves_eq_all]; exact hnb) hk2
+
+/-- **`Reverse` is an involution on every canonical location that reads no residue twice, has no
+between-site and does not meet K2** — any kind, arity, nesting, strand and partial markers, every
+`L`: exactly the conditions under which the harness evaluates its oracle "reverse: involution on
+canonical locations" (`isCanonical`, `nodup`, `!hasBetween`, guard line `k2.reverse`), now a theorem. -/
+theorem reverse_involutive_nodup_partial (l : Loc) (L : Int) (hc : canonP l = true) (hw : wf l = true)
+    (hnd : (den l).Nodup) (hnb : (leaves l).all (fun u => !isBetween u) = true)
+    (hk2 : reverseAbs l L = false) : reverse (reverse l L) L = l :=
+  reverse_involutive_partial l L hc (reverse_stable_of_nodup l L hc hw hnd hnb hk2)
+
+/-- non-vacuity: a complement-strand join of five parts with markers, and an order with a join and
+a complement inside -/
+example :
+    let a := compl (joined [ranged 0 2 true false, point 4, ranged 6 9 false false, ambiguous 11 13,
+      ranged 15 20 false true])
+    let b := ordered [joined [ranged 1 3 false false, compl (ranged 5 8 false false)], point 10]
+    (canonP a = true ∧ wf a = true ∧ (den a).Nodup ∧ (leaves a).all (fun u => !isBetween u) = true ∧
+      reverseAbs a 20 = false) ∧
+    (canonP b = true ∧ wf b = true ∧ (den b).Nodup ∧ (leaves b).all (fun u => !isBetween u) = true ∧
+      reverseAbs b 20 = false) := by
+  decide
+
 /-- FULL STATEMENT of the denotation-level law with the K2 guard on the FIRST reversal alone (false
 on the model, and on the code).  Witness `join(3..6,5^6,7)` on ten residues: canonical — the site
 separates the range from the point behind it — and K2 does not fire in `join(4,5^6,5..8)`, but
@@ -322,6 +357,15 @@ theorem seq_reverse_reverse_feature_partial (s : Seq) (f : Feature) (hf : f ∈ 
     f ∈ s.reverse.reverse.feats := by
   have := mem_of_perm_map (seq_reverse_reverse_table_perm s) hf
   rwa [reverse_involutive_partial f.loc s.len hc hs] at this
+
+/-- **per feature, in the terms of the feature**: a feature whose location is canonical,
+well-formed, duplicate-free, without between-site and K2-free under `Reverse(len)` is a feature of
+the twice reversed record, unchanged -/
+theorem seq_reverse_reverse_feature_nodup_partial (s : Seq) (f : Feature) (hf : f ∈ s.feats)
+    (hc : canonP f.loc = true) (hw : wf f.loc = true) (hnd : (den f.loc).Nodup)
+    (hnb : (leaves f.loc).all (fun u => !isBetween u) = true)
+    (hk2 : reverseAbs f.loc s.len = false) : f ∈ s.reverse.reverse.feats :=
+  seq_reverse_reverse_feature_partial s f hf hc (reverse_stable_of_nodup f.loc s.len hc hw hnd hnb hk2)
 
 /-- **the whole table**: when every feature meets the guard, the twice reversed record carries
 the same features (`FeatureSlice.Insert` may order equal-ranking features differently) and the
